@@ -903,16 +903,26 @@ impl Optimizer {
                 Self::collect_output_variables_recursive(&filter.input, vars);
             }
             LogicalOperator::Project(proj) => {
+                // A projection hands on exactly what it lists: a variable it drops
+                // is not bound above it, even though something below binds it
                 for p in &proj.projections {
-                    if let Some(alias) = &p.alias {
-                        vars.insert(alias.clone());
+                    match (&p.alias, &p.expression) {
+                        (Some(alias), _) => {
+                            vars.insert(alias.clone());
+                        }
+                        (None, LogicalExpression::Variable(name)) => {
+                            vars.insert(name.clone());
+                        }
+                        _ => {}
                     }
                 }
-                Self::collect_output_variables_recursive(&proj.input, vars);
             }
             LogicalOperator::Join(join) => {
                 Self::collect_output_variables_recursive(&join.left, vars);
-                Self::collect_output_variables_recursive(&join.right, vars);
+                // Semi and anti joins only hand on their left side
+                if !matches!(join.join_type, JoinType::Semi | JoinType::Anti) {
+                    Self::collect_output_variables_recursive(&join.right, vars);
+                }
             }
             LogicalOperator::Aggregate(agg) => {
                 for expr in &agg.group_by {
@@ -925,7 +935,17 @@ impl Optimizer {
                 }
             }
             LogicalOperator::Return(ret) => {
-                Self::collect_output_variables_recursive(&ret.input, vars);
+                for item in &ret.items {
+                    match (&item.alias, &item.expression) {
+                        (Some(alias), _) => {
+                            vars.insert(alias.clone());
+                        }
+                        (None, LogicalExpression::Variable(name)) => {
+                            vars.insert(name.clone());
+                        }
+                        _ => {}
+                    }
+                }
             }
             LogicalOperator::Limit(limit) => {
                 Self::collect_output_variables_recursive(&limit.input, vars);
